@@ -79,6 +79,12 @@ def cases(rng, tier):
 	yield ('acc', 'Accept-Charset', b'iso-8859-15, iso-8859-1;q=0.3')
 	yield ('acc', 'Accept', b'application/json;version=2;q=0.5, text/html;title=x;q=0.9, a/b;schema=s')
 	yield ('acc', 'TE', b'trailers, deflate;q=0.5, trailer')
+	# an empty quoted parameter value in a later element; language ranges with digits (RFC 4647), charsets and codings with digits and signs
+	yield ('acc', 'Accept', b'a/b, c/d;y=""')
+	yield ('acc', 'Accept', b'a/b;q=0.7, c/d;y="";q=0.2, e/f;z="x,y"')
+	yield ('acc', 'Accept-Language', b'es-419;q=0.8, en, de-CH-1996;q=0.5, zh-Hant-TW, *;q=0.1, x-klingon, i-enochian')
+	yield ('acc', 'Accept-Charset', b'iso-8859-1, utf-8;q=0.9, windows-1252;q=0.1, x-mac_roman')
+	yield ('acc', 'Accept-Encoding', b'x-compress, br;q=1.0, zstd;q=0.9, identity;q=0')
 	n = 6000 if tier == 'thorough' else 1500
 	for _ in range(n):
 		name = rng.choice(NAMES)
